@@ -1233,6 +1233,11 @@ func (r *Raft) election() {
 func (r *Raft) sendRequestVoteToPeers() {
 	// Handle the single node cluster case.
 	if r.isSingleServerCluster() {
+		// The only voter wins at once, but leading still requires a term of its own and
+		// a persisted vote for itself, exactly as for an election decided by peers.
+		if r.state != Candidate {
+			r.becomeCandidate()
+		}
 		r.becomeLeader()
 		return
 	}
